@@ -427,6 +427,33 @@ Section Cov.
       + apply (H [] 0). constructor.
   Qed.
 
+  (* the paged DiscardForRestore stages no idempotency entry and keeps the filter *)
+  Lemma Inv_discard_pages fuel : forall st c next, Inv st -> Inv (fst (discard_pages F fuel st c next)).
+  Proof.
+    induction fuel as [|fuel IH]; intros st c next HI; cbn [discard_pages]; [exact HI|].
+    destruct (readForward (st_kv st) c next 0 _ _) as [[|r rows]|e]; [exact HI| |exact HI].
+    assert (H1 : Inv (commit F st (flat_map (stageDeleteMessage c) (r :: rows)))) by (apply Inv_commit_other; [apply no_idem_deletes|exact HI]).
+    destruct (last_seq (r :: rows) <? next); [exact H1|]. apply IH. exact H1.
+  Qed.
+
+  Lemma Inv_drop_leo st c : Inv st ->
+    Inv (set_cache F st c (CC F 0 false (cc_filter F (st_cache st c)) (cc_floaded F (st_cache st c)))).
+  Proof.
+    intros [W HC]. split; [exact W|].
+    apply (same_cache_Cov st); [| |exact HC].
+    - intro c'. unfold set_cache. cbn [MsgStore.st_cache]. destruct (c' =? c) eqn:E; [|split; reflexivity].
+      apply N.eqb_eq in E. subst. split; reflexivity.
+    - intros c' n u q i h G. left. eauto.
+  Qed.
+
+  Lemma Inv_discard st c : Inv st -> Inv (fst (DiscardForRestore F st c)).
+  Proof.
+    intro HI. unfold DiscardForRestore.
+    pose proof (Inv_discard_pages (S (length (rows_unsorted (st_kv st) c))) st c 1 HI) as H1.
+    destruct (discard_pages F _ st c 1) as [st1 [u|e]]; cbn [fst] in *; [|exact H1].
+    apply Inv_drop_leo. apply Inv_commit_other; [repeat constructor|exact H1].
+  Qed.
+
   Lemma Inv_step compact st o : Inv st -> (forall items, o <> OCBatch items) -> Inv (fst (fst (step_dump F f_empty f_may f_add compact st o))).
   Proof.
     intros HI Hnb.
@@ -507,7 +534,9 @@ Section Cov.
           destruct (readForward _ c 1 leo 0 0); exact HI1.
         + destruct (readForward _ c 1 fromSeq 0 0); exact HI.
       - (* LEO *)
-        pose proof (Inv_loadLEO st c HI) as HI1. destruct (loadLEOLocked F st c) as [st1 leo]. exact HI1. }
+        pose proof (Inv_loadLEO st c HI) as HI1. destruct (loadLEOLocked F st c) as [st1 leo]. exact HI1.
+      - (* DiscardForRestore *)
+        pose proof (Inv_discard st c HI) as H1. destruct (DiscardForRestore F st c) as [st1 r]. exact H1. }
     unfold MsgStore.step_dump. destruct (MsgStore.step F f_empty f_may f_add st o) as [st1 x]. cbn [fst] in Hstep.
     destruct o; try (exfalso; eapply Hnb; reflexivity);
       try (cbn [is_mutation andb]; destruct compact; cbn [negb fst];
@@ -1020,6 +1049,7 @@ Section Cov.
         [apply NoPT_set_log; [exact Hn|apply Hn]|exact Hn].
     - cbn [snd spec_mutate] in Hm. injection Hm as <-. exact Hn.
     - cbn [snd spec_mutate] in Hm. injection Hm as <-. exact Hn.
+    - destruct Hok as [_ []].
   Qed.
 
   Lemma run_no_ptaint compact ops : forall st s,
@@ -1138,7 +1168,7 @@ Section Cov.
     { destruct (spec_check_read s o _); [injection Hs as <-; exact Hn|discriminate]. }
     destruct (spec_mutate s o (snd (step st o))) as [s1|] eqn:Hm; [|discriminate].
     destruct (forallb _ ds); [|discriminate]. injection Hs as <-.
-    destruct Hok as [Hc _].
+    destruct Hok as [Hc Hnd].
     destruct o; cbn [strict_only] in Hnt; try contradiction; cbn [MsgStore.step] in Hm; try discriminate Hr; cbn [op_chan] in Hc.
     - apply N.eqb_eq in Hnt. subst mode.
       destruct (must_reject s c AppendStrict recs) eqn:Em.
